@@ -80,9 +80,12 @@ func tblock(w *fx.World, b *types.Block, parent int, inTurn bool) TBlock {
 // never stabilises anything, so none of its background goroutines reads the self key.
 func buildMaterial(r *run.Rng, idx int, shape string, T0 uint32, selfIdx int) (*Material, error) {
 	if shape == "" {
-		shape = []string{"random", "random", "deepchain", "forks", "mine"}[r.Intn(5)]
+		shape = []string{"random", "random", "deepchain", "forks", "mine", "bgsign"}[r.Intn(6)]
 	}
 	nDep := r.Range(3, 5)
+	if shape == "bgsign" {
+		nDep = r.Range(4, 5) // with 3 deputies miner + own signature already make a block stable
+	}
 	slot := []uint64{40000, 60000, 100000}[r.Intn(3)]
 	wcfg := fx.WorldCfg{Deputies: nDep, Users: 3, SlotMs: slot, GenesisTime: T0 - 600}
 	w := fx.NewWorld(wcfg)
@@ -126,14 +129,16 @@ func buildMaterial(r *run.Rng, idx int, shape string, T0 uint32, selfIdx int) (*
 	}
 	nodes := []tn{{head, -1, 0}}
 	want := r.Range(3, 8)
-	if shape == "deepchain" {
-		want = r.Range(4, 7)
+	if shape == "deepchain" || shape == "bgsign" {
+		want = r.Range(5, 7)
 	}
 	hi := T0 - 10
 	seen := map[common.Hash]bool{}
 	for attempt := 0; attempt < 4*want && len(mat.Tree) < want; attempt++ {
 		var p tn
 		switch {
+		case shape == "bgsign":
+			p = nodes[len(nodes)-1]
 		case shape == "deepchain":
 			p = nodes[len(nodes)-1]
 			if r.Chance(1, 6) && len(nodes) > 2 {
@@ -220,7 +225,11 @@ func buildMaterial(r *run.Rng, idx int, shape string, T0 uint32, selfIdx int) (*
 
 	// blocks inserted during setup: an ancestor-closed initial segment
 	inPre := map[int]bool{}
-	for i, npre := 0, r.Intn(3); i < len(mat.Tree) && len(mat.Pre) < npre; i++ {
+	npre := r.Intn(3)
+	if shape == "bgsign" {
+		npre = 3
+	}
+	for i := 0; i < len(mat.Tree) && len(mat.Pre) < npre; i++ {
 		if p := mat.Tree[i].Parent; p == -1 || inPre[p] {
 			mat.Pre = append(mat.Pre, i)
 			inPre[i] = true
@@ -317,6 +326,18 @@ func buildMaterial(r *run.Rng, idx int, shape string, T0 uint32, selfIdx int) (*
 	}
 	nClients := r.Range(2, 4)
 	mat.Clients = make([][]Req, nClients)
+	if shape == "bgsign" && len(mat.Pre) > 0 {
+		// client 0 starts with the packet that makes the deepest pre-inserted block stable: the
+		// stable block jumps over ancestors that lack confirms and the background signer starts
+		// while the other clients insert the next blocks (which the node signs in the foreground)
+		ti := mat.Pre[len(mat.Pre)-1]
+		rq := Req{Kind: "confirms", Block: ti, Signers: signersOf(ti)}
+		rq.Sigs = sign(ti, rq.Signers)
+		mat.Clients[0] = append(mat.Clients[0], rq)
+		if len(reqs) >= budget {
+			reqs = reqs[:budget-1]
+		}
+	}
 	for _, rq := range reqs {
 		switch r.Intn(3) {
 		case 1:
@@ -325,6 +346,12 @@ func buildMaterial(r *run.Rng, idx int, shape string, T0 uint32, selfIdx int) (*
 			rq.PreDelay = r.Range(100, 1500)
 		}
 		cl := r.Intn(nClients)
+		if shape == "bgsign" {
+			cl = 1 + r.Intn(nClients-1)
+			if rq.PreDelay > 1 {
+				rq.PreDelay = r.Range(100, 2500)
+			}
+		}
 		mat.Clients[cl] = append(mat.Clients[cl], rq)
 	}
 	mat.Readers = r.Range(1, 2)
@@ -339,10 +366,10 @@ func buildMaterial(r *run.Rng, idx int, shape string, T0 uint32, selfIdx int) (*
 			mat.Yield[s] = r.Range(1000, 5000)
 		}
 	}
-	if shape == "deepchain" {
+	if shape == "deepchain" || shape == "bgsign" {
 		// widen the window in which the background signer overlaps the foreground
-		mat.Yield[siteBatch] = r.Range(1000, 4000)
-		mat.Yield[siteSig] = r.Range(1000, 3000)
+		mat.Yield[siteBatch] = r.Range(500, 3000)
+		mat.Yield[siteSig] = r.Range(500, 3000)
 	}
 	if nMine > 0 && r.Chance(1, 2) {
 		// a transaction for the miner: the founder (reward manager) calls the reward precompile
